@@ -304,5 +304,117 @@ theorem scanGarbage_finds (term inp : List UInt8) (g : Nat)
       rw [if_neg hf, if_neg (by omega)]
       exact scanGarbage_finds term inp g hat hno hlen fuel (i + 1) (by omega) (by omega)
 
+/-! ### the handshake after key agreement -/
+
+/-- the packets CompleteHandshake sends after the terminator: decoys (zero contents, ignore bit),
+then the empty version packet; the garbage is the AAD of the first of them -/
+def hsPkts : List UInt8 → List Nat → List Pkt
+  | aad, [] => [⟨[], aad, false⟩]
+  | aad, n :: ns => ⟨List.replicate n 0, aad, true⟩ :: hsPkts [] ns
+
+theorem hsPkts_shape : ∀ (aad : List UInt8) (ns : List Nat),
+    ∃ ds p, hsPkts aad ns = ds ++ [p] ∧ (∀ q ∈ ds, q.ignore = true) ∧ p.ignore = false ∧
+      ds.length = ns.length ∧ (ds ++ [p]).map (·.aad) = aad :: List.replicate ds.length []
+  | aad, [] => ⟨[], ⟨[], aad, false⟩, rfl, by simp, rfl, rfl, rfl⟩
+  | aad, n :: ns => by
+    obtain ⟨ds, p, he, hi, hp, hl, ha⟩ := hsPkts_shape [] ns
+    refine ⟨⟨List.replicate n 0, aad, true⟩ :: ds, p, ?_, ?_, hp, ?_, ?_⟩
+    · simp only [hsPkts, he, List.cons_append]
+    · intro q hq
+      rcases List.mem_cons.mp hq with rfl | hq
+      · rfl
+      · exact hi q hq
+    · simp [hl]
+    · simp only [List.cons_append, List.map_cons, List.length_cons, List.replicate_succ, ha]
+
+theorem sendDecoys_eq (P : Prims) : ∀ (ns : List Nat) (d : Dir) (aad acc bytes : List UInt8) (d' : Dir),
+    sendDecoys P d aad ns acc = .ok (bytes, d') →
+    ∃ w, sendAll P d (hsPkts aad ns) = some (w, d') ∧ bytes = acc ++ w
+  | [], d, aad, acc, bytes, d', h => by
+    unfold sendDecoys at h
+    cases h1 : sendPacket P d [] aad false with
+    | none => rw [h1] at h; exact absurd h (by simp)
+    | some r =>
+      rw [h1] at h
+      simp only [Except.ok.injEq, Prod.mk.injEq] at h
+      refine ⟨r.1, ?_, h.1.symm⟩
+      simp only [hsPkts, sendAll, h1, List.append_nil, h.2]
+  | n :: ns, d, aad, acc, bytes, d', h => by
+    unfold sendDecoys at h
+    cases h1 : sendPacket P d (List.replicate n 0) aad true with
+    | none => rw [h1] at h; exact absurd h (by simp)
+    | some r =>
+      obtain ⟨b, d1⟩ := r
+      rw [h1] at h
+      simp only [] at h
+      obtain ⟨w, hw, hb⟩ := sendDecoys_eq P ns d1 [] (acc ++ b) bytes d' h
+      refine ⟨b ++ w, ?_, by rw [hb, List.append_assoc]⟩
+      simp only [hsPkts, sendAll, h1, hw]
+
+theorem sendAll_length_ge (P : Prims) : ∀ (pkts : List Pkt) (d : Dir) (w : List UInt8) (d' : Dir),
+    sendAll P d pkts = some (w, d') → pkts.length ≤ w.length
+  | [], _, _, _, _ => by simp
+  | p :: ps, d, w, d', h => by
+    unfold sendAll at h
+    cases h1 : sendPacket P d p.contents p.aad p.ignore with
+    | none => rw [h1] at h; exact absurd h (by simp)
+    | some r =>
+      obtain ⟨b, d1⟩ := r
+      rw [h1] at h
+      simp only [] at h
+      cases h2 : sendAll P d1 ps with
+      | none => rw [h2] at h; exact absurd h (by simp)
+      | some r2 =>
+        obtain ⟨bs, d2⟩ := r2
+        rw [h2] at h
+        simp only [Option.some.injEq, Prod.mk.injEq] at h
+        have ih := sendAll_length_ge P ps d1 bs d2 h2
+        unfold sendPacket at h1
+        split at h1
+        · exact absurd h1 (by simp)
+        · simp only [Option.some.injEq] at h1
+          have hb : 3 ≤ b.length := by
+            have : b = (encodePacket P d (header p.ignore) p.contents p.aad).1 := by rw [h1]
+            rw [this]
+            simp only [encodePacket, List.length_append, fscCrypt_length, natLE_length]
+            omega
+          rw [← h.1]
+          simp only [List.length_cons, List.length_append]
+          omega
+
+/-- CompleteHandshake (after key agreement) succeeds against a peer that sent `G` (≤ 4095 bytes of
+garbage), its terminator, any number of decoys and its version packet — and leaves the receive
+ciphers in the peer's send state. -/
+theorem complete_ok (P : Prims) (hmac : ∀ k m, (P.mac k m).length = 16) (s : Session)
+    (myGarbage : List UInt8) (myDecoys : List Nat) (written : List UInt8)
+    (mb : List UInt8) (send' : Dir) (hmine : sendDecoys P s.send myGarbage myDecoys [] = .ok (mb, send'))
+    (G : List UInt8) (hG : G.length ≤ 4095) (hT : s.recvTerm.length = 16)
+    (peerDecoys : List Nat) (pb : List UInt8) (d' : Dir)
+    (hpeer : sendDecoys P s.recv G peerDecoys [] = .ok (pb, d')) (rest : List UInt8)
+    (hno : ∀ i, i < G.length → ((G ++ (s.recvTerm ++ (pb ++ rest))).drop i).take 16 ≠ s.recvTerm) :
+    let out := completeAfterKeys P s myGarbage myDecoys written (G ++ (s.recvTerm ++ (pb ++ rest)))
+    out.status = .ok ∧ out.sess = some { s with send := send', recv := d' } ∧ out.rest = rest ∧
+      out.written = written ++ s.sendTerm ++ mb := by
+  obtain ⟨w, hw, hpb⟩ := sendDecoys_eq P peerDecoys s.recv G [] pb d' hpeer
+  simp only [List.nil_append] at hpb
+  subst hpb
+  obtain ⟨ds, p, he, hi, hp, _, ha⟩ := hsPkts_shape G peerDecoys
+  rw [he] at hw
+  have hlen := sendAll_length_ge P _ _ _ _ hw
+  have hscan : scanGarbage s.recvTerm (G ++ (s.recvTerm ++ (pb ++ rest))) scanIterations 0 = .ok G.length := by
+    apply scanGarbage_finds _ _ G.length _ hno _ scanIterations 0 (Nat.zero_le _)
+    · simp only [scanIterations, Spec.MAX_GARBAGE_LEN]; omega
+    · rw [List.drop_left, ← hT, List.take_left]
+    · simp only [List.length_append, hT]; omega
+  have hrecv := recvPacket_skips P hmac ds p G s.recv d' pb rest (pb ++ rest).length hi hp
+    (by simp only [List.length_append, List.length_singleton] at hlen ⊢; omega) ha hw
+  have hlen16 : ¬ (G ++ (s.recvTerm ++ (pb ++ rest))).length < 16 := by
+    simp only [List.length_append, hT]; omega
+  have hdrop : (G ++ (s.recvTerm ++ (pb ++ rest))).drop (G.length + 16) = pb ++ rest := by
+    rw [← List.drop_drop, List.drop_left, ← hT, List.drop_left]
+  have htake : (G ++ (s.recvTerm ++ (pb ++ rest))).take G.length = G := List.take_left
+  refine ⟨?_, ?_, ?_, ?_⟩ <;>
+    simp only [completeAfterKeys, hmine, hlen16, if_false, hscan, hdrop, htake, hrecv]
+
 end Lemmas
 end BV.C19
